@@ -338,7 +338,7 @@ func triggerNodeScenario(r *Run) {
 	}
 	nOut := 0
 	produce := func(ctx execution.ProduceContext, rec execution.Record) error {
-		r.Log("  out %s", Msg{Kind: MsgRec, Values: rec.Values, Retr: rec.Retraction, ET: rec.EventTime})
+		r.SinkLog("  out %s", Msg{Kind: MsgRec, Values: rec.Values, Retr: rec.Retraction, ET: rec.EventTime})
 		nOut++
 		ks := RowKey([]octosql.Value{rec.Values[0], rec.Values[1]})
 		if statesSeen[ks] == nil {
@@ -405,7 +405,7 @@ func triggerNodeScenario(r *Run) {
 	}
 	prevDelivery := -1
 	metaSend := func(ctx execution.ProduceContext, msg execution.MetadataMessage) error {
-		r.Log("  out wm(%s)", Sec(msg.Watermark))
+		r.SinkLog("  out wm(%s)", Sec(msg.Watermark))
 		nOut++
 		if cfg.watermark {
 			for _, ks := range keyOrder {
